@@ -33,6 +33,8 @@ type c03Case struct {
 	// Resend: after the faulty call, the messages that were not delivered are sent again by a new call over a
 	// healthy transport with all faults disarmed (what a caller does after a failed Send)
 	Resend bool `json:"resend,omitempty"`
+	// Multiline: the server sends every reply as a multi-line reply
+	Multiline bool `json:"multiline_replies,omitempty"`
 }
 
 type c03Dry struct {
@@ -75,7 +77,7 @@ func runC03Case(r *ev.Run, c c03Case) c03Dry {
 		tmo = 500 * time.Millisecond // after a transport failure the client waits for its own deadline
 	}
 	sr := runSendT(func(int) *refsmtp.Config {
-		return &refsmtp.Config{Decide: scriptDecide(c.Script), AllowUTF8: true}
+		return &refsmtp.Config{Decide: scriptDecide(c.Script), AllowUTF8: true, Multiline: c.Multiline}
 	}, func(n int, tc *faultio.TrackConn) {
 		tc.KeepBytes = true
 		if n == 0 {
@@ -106,7 +108,7 @@ func runC03Case(r *ev.Run, c c03Case) c03Dry {
 		}
 		if len(again) > 0 {
 			sr2 = runSendT(func(int) *refsmtp.Config {
-				return &refsmtp.Config{AllowUTF8: true}
+				return &refsmtp.Config{AllowUTF8: true, Multiline: c.Multiline}
 			}, func(n int, tc *faultio.TrackConn) { tc.KeepBytes = true }, []mail.Option{mail.WithTLSPolicy(mail.NoTLS)}, again, c.Via, false, defaultNetTimeout)
 			if sr2.Panic != nil {
 				viol("panic:resend:"+c.FailClass, fmt.Sprintf("client panicked in the retry: %v", sr2.Panic), nil)
@@ -456,7 +458,7 @@ func c03Spec(r *ev.Run, stream string, idx, mi int) gen.MsgSpec {
 
 func runC03(r *ev.Run, rep *ev.ReplayDoc) ev.Summary {
 	sum := ev.Summary{
-		Rule: "batches of 1-3 seeded messages (C01 shapes, canonical CRLF) sent through Send / DialAndSend / SendWithSMTPClient under single faults enumerated per batch: every content producer failing before/inside/after its data; the transport failing writes at offsets of every class inside each message's DATA phase (first byte, header block, every boundary line, part bodies, closing boundary, terminating dot) taken from a dry run; every reply class {4yz,5yz,drop} at every command position; plus fault pairs (producer x reply, transport x reply) for small batches; every transport fault, every producer fault inside or after its data and the 4yz/drop replies at DATA / end-of-data / RSET are also run with a retry (the undelivered *Msg values are sent again by a new call over a healthy connection: each must be committed once, complete). Also pairs of overlapping calls on one established connection (the second Send starts while the first call is inside its DATA phase). Oracle compares the reference server's commit log with the complete renderings. non-trivial = a fault was injected; distinct by (batch, fault)",
+		Rule: "batches of 1-3 seeded messages (C01 shapes, canonical CRLF; for every fourth batch the server sends all its replies as multi-line replies) sent through Send / DialAndSend / SendWithSMTPClient under single faults enumerated per batch: every content producer failing before/inside/after its data; the transport failing writes at offsets of every class inside each message's DATA phase (first byte, header block, every boundary line, part bodies, closing boundary, terminating dot) taken from a dry run; every reply class {4yz,5yz,drop} at every command position; plus fault pairs (producer x reply, transport x reply) for small batches; every transport fault, every producer fault inside or after its data and the 4yz/drop replies at DATA / end-of-data / RSET are also run with a retry (the undelivered *Msg values are sent again by a new call over a healthy connection: each must be committed once, complete). Also pairs of overlapping calls on one established connection (the second Send starts while the first call is inside its DATA phase). Oracle compares the reference server's commit log with the complete renderings. non-trivial = a fault was injected; distinct by (batch, fault)",
 		Assumptions: []string{
 			"expected renderings are produced by the harness after the call with all producer faults disarmed (rendering is repeatable, C11)",
 			"what counts as committed is what the reference server received between 354 and CRLF.CRLF and acknowledged with 2yz",
@@ -486,7 +488,7 @@ func runC03(r *ev.Run, rep *ev.ReplayDoc) ev.Summary {
 	var cases []c03Case
 	for b := 0; b < nb; b++ {
 		size := 1 + b%3
-		base := c03Case{Via: vias[b%3], WriteFail: -1}
+		base := c03Case{Via: vias[b%3], WriteFail: -1, Multiline: b%4 == 1}
 		for mi := 0; mi < size; mi++ {
 			base.Specs = append(base.Specs, c03Spec(r, "c03", b, mi))
 		}
@@ -621,7 +623,7 @@ func runC03(r *ev.Run, rep *ev.ReplayDoc) ev.Summary {
 				pf += fmt.Sprintf("%d:%s@%d", mi, k, f.After)
 			}
 		}
-		r.Eval(fmt.Sprintf("%s|%s|%s|%d|%s|%t", c.Specs[0].ID, c.Via, scriptString(c.Script), c.WriteFail, pf, c.Resend), true)
+		r.Eval(fmt.Sprintf("%s|%s|%s|%d|%s|%t|%t", c.Specs[0].ID, c.Via, scriptString(c.Script), c.WriteFail, pf, c.Resend, c.Multiline), true)
 		r.Seen("fault_classes", c.FailClass)
 		if i%401 == 0 {
 			r.Sample(map[string]any{"batch": len(c.Specs), "via": c.Via, "fault_class": c.FailClass, "script": scriptString(c.Script), "write_fail_at": c.WriteFail})
